@@ -133,6 +133,30 @@ CONTRACTS[(PATH, 'TextLine.get_dense_logits')] = Contract(
              'forall(lambda t, c: implies(0 <= t and t < ROWS and 0 <= c and c < COLS and STORED(t, c) != 0, result[t, c] == STORED(t, c)))',
              'forall(lambda t, c: implies(0 <= t and t < ROWS and 0 <= c and c < COLS and STORED(t, c) == 0, result[t, c] == zero_logit_value))'],
 )
+# ---------------------------------------------------------------------------------------------------
+# _gen_logits: a missing component is reported, never saved silently
+
+_MISSING = ('exists(lambda a, j: 0 <= a and a < NREG and 0 <= j and j < NL(a) and '
+            '(LINE(a, j).logits is None or LINE(a, j).characters is None or LINE(a, j).logit_coords is None))')
+_COMPLETE = ('forall(lambda a, j: implies(0 <= a and a < %s and 0 <= j and j < %s, '
+             'LINE(a, j).logits is not None and LINE(a, j).characters is not None and LINE(a, j).logit_coords is not None))')
+CONTRACTS[(PATH, 'PageLayout._gen_logits')] = Contract(
+    params={'self': 'obj:PageLayout', 'missing_line_logits_ok': 'bool'}, theory=theory,
+    fields={'regions': 'py', 'lines': 'py', 'logits': 'opt:val', 'characters': 'opt:val', 'logit_coords': 'opt:val', 'id': 'val'},
+    ghosts={'pyinit:regions': _regions, 'pyinit:lines': _lines, 'seqvars': {'logits': ValCodec, 'characters': ValCodec, 'logit_coords': ValCodec}},
+    # the three `+=` of per-line tuples and the dictionary construction are replaced by "no effect on the exception clause"
+    replace={'logits += [(line.id, line.logits) for line in region.lines]': [],
+             'characters += [(line.id, line.characters) for line in region.lines]': [],
+             'logit_coords += [(line.id, line.logit_coords) for line in region.lines]': [],
+             'logits_dict = dict(logits)': ['logits_dict = 0'], "logits_dict['line_characters'] = dict(characters)": [], "logits_dict['logit_coords'] = dict(logit_coords)": []},
+    # unless the caller allows it, a line without logits / character table / frame window raises instead of being written
+    raises={'Exception': 'not missing_line_logits_ok and ' + _MISSING},
+    ensures_exc={'Exception': 'not missing_line_logits_ok and ' + _MISSING},
+    loops={0: LoopSpec(counter='ra', inv=['implies(not missing_line_logits_ok, ' + _COMPLETE % ('ra', 'NL(a)') + ')']),
+           1: LoopSpec(counter='lb', inv=['region is self.regions[ra]', 'implies(not missing_line_logits_ok, ' + _COMPLETE % ('ra', 'NL(a)') + ')',
+                                          'implies(not missing_line_logits_ok, forall(lambda j: implies(0 <= j and j < lb, LINE(ra, j).logits is not None and '
+                                          'LINE(ra, j).characters is not None and LINE(ra, j).logit_coords is not None)))'])},
+)
 KEYS = list(CONTRACTS)
 
 
